@@ -44,6 +44,8 @@ type Harness struct {
 	IntBitLen   int               `json:"int_bitlen_cap"`
 	AppendSlack bool              `json:"append_slack"`
 	Tactic      string            `json:"check_sat_using"` // z3 tactic for every query, e.g. "qfufbv" (wide bit-vectors: the incremental core is very slow)
+	SolverMode  string            `json:"solver_mode"` // "fresh": every query non-incremental (solver_fresh.go)
+	MergeStores bool              `json:"merge_stores"` // merge diamonds whose arms load/store scalars (mergemem.go)
 	SymSlices   bool              `json:"sym_slices"` // slices with a symbolic window start instead of forking (symslice.go)
 	LazyMake    int               `json:"lazy_make"` // >0: make() with a symbolic cap that may exceed this materialises only this many elements (intr_lazymake.go)
 	NoMerge     bool              `json:"no_merge"`
@@ -402,10 +404,35 @@ func (hr *HarnessRun) noteMapOrderFixed(n int) {
 }
 func (hr *HarnessRun) addFailure(f Failure) {
 	hr.mu.Lock()
-	if len(hr.failures) < 64 {
+	keep := len(hr.failures) < 64
+	if !keep {
+		// the cap must never drop a failure of a kind not recorded yet (e.g. one
+		// outside a known-finding class after 64 failures inside it)
+		keep = true
+		for i := range hr.failures {
+			if g := &hr.failures[i]; g.Kind == f.Kind && g.Label == f.Label && g.Known == f.Known {
+				keep = false
+				break
+			}
+		}
+	}
+	if keep {
 		hr.failures = append(hr.failures, f)
 	}
+	// enough counterexamples outside every known-finding class: the verdict is
+	// VIOLATION whatever the remaining paths show, stop exploring (failing
+	// queries on wide bit-vectors are slow)
+	nu := 0
+	for i := range hr.failures {
+		if hr.failures[i].Known == "" {
+			nu++
+		}
+	}
+	if nu >= 8 {
+		hr.stop = true
+	}
 	hr.mu.Unlock()
+	hr.cond.Broadcast()
 }
 
 func (p *Path) maxSteps() int64 {
@@ -491,6 +518,9 @@ func (e *Engine) RunHarness(s *Suite, h *Harness) *HarnessRun {
 				return
 			}
 			sol.tactic = h.Tactic
+			if h.SolverMode == "fresh" { // solver_fresh.go
+				sol.fresh, sol.noOneShot = true, true
+			}
 			defer func() {
 				hr.stats.add(&sol.stats)
 				sol.Close()
